@@ -5,6 +5,7 @@ use crate::util::Stats;
 use std::io::Write;
 
 pub mod url;
+pub mod pipeline;
 pub mod htmldecode;
 pub mod inline;
 pub mod block;
@@ -54,6 +55,7 @@ pub type StreamFn = fn(n: usize, rng: &mut Rng, out: &mut Out);
 pub fn streams() -> Vec<(&'static str, StreamFn)> {
     vec![
         ("url", url::run as StreamFn),
+        ("pipeline", pipeline::run as StreamFn),
         ("htmldecode", htmldecode::run as StreamFn),
         ("inline", inline::run as StreamFn),
         ("block", block::run as StreamFn),
